@@ -26,6 +26,7 @@ type c11ShardResult struct {
 	Capped    bool
 	Findings  []report.Violation
 	Errors    []string
+	Sample    map[string]interface{}
 }
 
 func c11RunScenario(sc c11Scenario, res *c11ShardResult, budget int64) {
@@ -100,6 +101,14 @@ func c11RunScenario(sc c11Scenario, res *c11ShardResult, budget int64) {
 	res.Outcomes += len(ex.Outcomes)
 	if ex.Capped {
 		res.Capped = true
+	}
+	if res.Sample == nil && ex.Schedules > 50 {
+		var outs []string
+		for o := range ex.Outcomes {
+			outs = append(outs, o)
+		}
+		res.Sample = map[string]interface{}{"config": cfg.Name, "base_version_key_indexes": sc.Base, "capture": sc.Capture, "threads": fmt.Sprint(sc.Seqs), "preemption_bound": sc.Bound,
+			"schedules_explored": ex.Schedules, "one_of_them": ex.Sample, "observed_outcomes": outs, "each_thread_alone": refs}
 	}
 	if ex.Divergence != "" {
 		res.Errors = append(res.Errors, fmt.Sprintf("replay divergence base=%v seqs=%v: %s", sc.Base, sc.Seqs, ex.Divergence))
@@ -184,6 +193,9 @@ func C11(run *report.Run) {
 		}
 		for _, v := range r.Findings {
 			run.Add(v)
+		}
+		if r.Sample != nil && len(run.Samples) < 2 {
+			run.AddSample(r.Sample)
 		}
 	}
 	c11RacePass(run)
